@@ -210,11 +210,11 @@ POOL = [b"", b"a", b"A", b"ab", b"aB", b"AB", b"abc", b"ABC", b"aBc", b"bc", b"B
         b"aaa", b"aa", b"/a/b", b"/A/B", b"a/b", b"abcabcabc", b"cab", b"bca",
         b"\xc3\xa4", b"\xc3\x84", b"a\xe4", b"A\xc4", b"\x80", b"\xff\xfe", b"\xe4", b"\xc4",
         b"@", b"[", b"`", b"{", b"Z", b"z", b"@[`{", b"`{@[",
-        b"ab\x00cd", b"\x00", b"abcd", b"ABCD", b" ", b"a b"]
+        b"ab\x00cd", b"\x00", b"abcd", b"ABCD", b" ", b"a b", b"aaab", b"AAAB", b"abababc", b"ababc"]
 LONG = [b"ab" * 40, b"ab" * 40 + b"c", b"AB" * 40, b"a" * 300, b"a" * 299 + b"b", b"A" * 299 + b"B", b"b" + b"a" * 299,
         b"x" * 17 + b"needle" + b"y" * 40, b"NEEDLE", b"needle", b"a" * 16, b"a" * 15 + b"B", b"a" * 31 + b"b" + b"a" * 32]
-RULE_OPS = [b"a", b"A", b"ab", b"", b"b/", b"\xc3\x84"]
-RULE_PATHS = [b"", b"a", b"A", b"ab", b"AB", b"ba", b"a/b/ab", b"A/B/", b"\xc3\x84ab", b"xyz", b"b/a", b"ab\x00zz"]
+RULE_OPS = [b"a", b"A", b"ab", b"", b"b/", b"\xc3\x84", b"aab", b"ababc"]
+RULE_PATHS = [b"", b"a", b"A", b"ab", b"AB", b"ba", b"a/b/ab", b"A/B/", b"\xc3\x84ab", b"xyz", b"b/a", b"ab\x00zz", b"aaab", b"AAAB", b"abababc"]
 
 
 def mk_member(kind, op_i=0):
@@ -262,6 +262,21 @@ def gen_libc_cases(pool):
                     cases.append({"lines": ["libc %s %s %s %d" % (f, hx(a), hx(b), n)], "libc": (f, a, b, n)})
     for a in pool:
         cases.append({"lines": ["libc strlen %s -" % hx(a)], "libc": ("strlen", a, b"", 0)})
+    # substring search over a tiny alphabet: every needle up to 4 letters in every haystack up to 6 over {a,b}, needles and
+    # haystacks with repeated prefixes (a search that does not back up after a partial match misses `aab` in `aaab`), and
+    # the same with mixed case for the case-insensitive search
+    import itertools
+    small = [bytes(t) for n in range(0, 7) for t in itertools.product(b"ab", repeat=n)]
+    for hay in small:
+        for nee in small:
+            if 1 <= len(nee) <= 4 and len(nee) <= len(hay):
+                cases.append({"lines": ["libc strstr %s %s" % (hx(hay), hx(nee))], "libc": ("strstr", hay, nee, 0)})
+                up = bytes(c - 32 if i % 2 else c for i, c in enumerate(hay))
+                cases.append({"lines": ["libc strcasestr %s %s" % (hx(up), hx(nee))], "libc": ("strcasestr", up, nee, 0)})
+    for hay, nee in ((b"abababc", b"ababc"), (b"bus/1/1/1/2/temp", b"/1/1/2"), (b"fooo/bar", b"oo/"), (b"AAAB", b"aab"), (b"xaaab", b"AAB"),
+                     (b"aabaabaac", b"aabaac"), (b"a/a/a/b", b"A/A/B")):
+        for f in ("strstr", "strcasestr"):
+            cases.append({"lines": ["libc %s %s %s" % (f, hx(hay), hx(nee))], "libc": (f, hay, nee, 0)})
     return cases
 
 
